@@ -8,6 +8,7 @@ from . import refash as R
 LATENCIES = (0.001, 0.002, 0.005, 0.02)
 STALLS = (0.5, 1.7, 3.5, 7.0)
 FAULT_KINDS = ("drop", "corrupt", "dup", "stall")
+LATE_DUP_MAX_AGE = 1.0  # seconds between a frame and its late duplicate
 RATES = (0, 8, 16, 32, 64)  # out of 256 per frame: 0, 1/32, 1/16, 1/8, 1/4
 
 
@@ -226,6 +227,10 @@ class Line:
             # reads may also span frame boundaries: chunks that are due at the same instant can be handed over as one read
             self.h2n.coalesce = self.n2h.coalesce = lambda: tape.draw(2, "coalesce") == 1
         self.trace = []  # abstract: (dir, frame kind, fault)
+        # late duplicates: a copy of a frame that turns up again after one or two later frames of the same direction (a glitching adapter
+        # re-sending an old buffer), at most LATE_DUP_MAX_AGE later and never across a reset; bounded well below the 3-bit number space, FIFO otherwise intact
+        self.late = {"h2n": [], "n2h": []}  # [remaining later frames, bytes]
+        self.late_dups = True
 
     def _latency(self) -> float:
         """Small latencies mostly; sometimes one that makes the arrival coincide
@@ -272,7 +277,12 @@ class Line:
                 bits.add(b2 + 1 if b2 >= b1 else b2)
             data = prefix + R.wire_raw(R.flip_bits(raw, bits))
         elif fault == "dup":
-            data = intact + intact
+            late = tape.draw(3, "dup.late") if self.late_dups else 0
+            if late:
+                self.late[direction].append([late, intact, self.loop.time()])
+                self.plan.fired[direction + ".dup_late"] += 1
+            else:
+                data = intact + intact
         lat = self._latency()
         if fault == "stall":
             lat += STALLS[tape.draw(len(STALLS), "stall")]
@@ -293,3 +303,21 @@ class Line:
         for p in parts:
             pipe.put(p, lat if first else 0.0)
             first = False
+        if kind in ("rst", "rstack"):
+            # a reset starts a new numbering epoch: a copy of a frame of the old one would be indistinguishable from a new frame
+            self.late["h2n"].clear()
+            self.late["n2h"].clear()
+        if self.late[direction]:
+            due = []
+            for ent in self.late[direction]:
+                if ent[1] is not intact or fault != "dup":
+                    ent[0] -= 1
+                    if ent[0] <= 0:
+                        due.append(ent)
+            for ent in due:
+                self.late[direction].remove(ent)
+                if self.loop.time() - ent[2] > LATE_DUP_MAX_AGE:
+                    continue  # too old: such a copy is not what 'duplicate' means (and the 3-bit numbers could have wrapped)
+                if self.log is not None:
+                    self.log.append((self.loop.time(), "line", direction, "late-duplicate", ent[1].hex()))
+                pipe.put(ent[1], 0.0)
